@@ -747,7 +747,7 @@ fn socket_lane(cfg: &RunCfg, rep: &mut Report) {
 pub fn run(cfg: &RunCfg) -> Report {
     let cases = cfg.cases(40_000, 1_600_000);
     let mut rep = run_cases(cfg, 0, cases, Duration::from_secs(3600), |_c, rng, rep| run_schedule(rng, rep));
-    if cfg.replay_case.is_none() && cfg.lane.is_none() {
+    if cfg.replay_case.is_none() && cfg.lane.as_deref() != Some("miri") {
         runtime_lane(cfg, &mut rep);
         socket_lane(cfg, &mut rep);
     }
